@@ -19,3 +19,14 @@ register('C11', 'proof',
          assumptions=['payload record shapes of contracts/shapes.py REC_KEYS (checked at run time in the thorough tier)',
                       'floats treated as reals (times are only compared)',
                       'time.monotonic() is non-decreasing along one execution'])
+register('C12', 'other',
+         'NOT a proof of the property: agreement and truth of N replicated process databases over all delivery schedules '
+         'cannot be phrased as a contract on one call or one object. Decided instead (necessary conditions, proved for '
+         'all states): lemmas over the ProcessStatus contracts of C11 - (1) two instances holding the same last report '
+         'from every instance show the same set of running instances and the same running state [refuted for a last '
+         'report STOPPING: known finding C12-stopping-snapshot; proved when no last report is STOPPING]; (2) feeding a '
+         'report as an event or as a handshake snapshot to equal views yields equal views. The lemmas rest on the '
+         'postconditions proved for add_info / update_info in C11.',
+         not_decided=['agreement across instances under all interleavings / fault prefixes (delivery is outside)',
+                      'truth of the view with respect to the remote Supervisors'],
+         assumptions=['the C11 contracts (proved by ./check C11)'])
